@@ -116,6 +116,15 @@ pub fn run(run: &mut Run) {
     for sc in newer.iter() {
         plan.push((2, "newer", Script { ops: sc.iter().map(|(n, c)| (*n, c.to_string())).collect() }));
     }
+    // administrative writes to one name through two different secondaries (needs three nodes)
+    let via_two_secondaries: Vec<Vec<(usize, &str)>> = vec![
+        vec![(1, "create-user bob bt"), (2, "create-user bob bt2")],
+        vec![(1, "set-permissions bob rw k*"), (2, "set-permissions bob r k*")],
+        vec![(1, "set k v1"), (2, "set k v2")],
+    ];
+    for sc in via_two_secondaries.iter() {
+        plan.push((3, "none", Script { ops: sc.iter().map(|(n, c)| (*n, c.to_string())).collect() }));
+    }
     if !quick {
         plan.extend(scripts(3, false).into_iter().map(|s| (3, "none", s)));
         for sc in newer.iter() {
@@ -134,7 +143,14 @@ pub fn run(run: &mut Run) {
             continue;
         }
         let setup = ClusterSetup { nodes: *nn, strategy, init: vec!["set k v0".into(), "set k v0b".into(), "set c 5".into()] };
-        let cfg = NetCfg { max_states: if quick { 4000 } else { 40000 }, max_path: 300, budget: Duration::from_secs(if quick { 6 } else { 40 }), workers: crate::util::workers(), by_deviations: false };
+        // the 3-node scripts of the quick tier cannot be completed in its time: one thread, by
+        // ascending number of deviations from the default schedule, capped by a state count, so
+        // that the explored part is the same on every run
+        let cfg = if quick && *nn == 3 {
+            NetCfg { max_states: 100, max_path: 300, budget: Duration::from_secs(300), workers: 1, by_deviations: true }
+        } else {
+            NetCfg { max_states: if quick { 4000 } else { 40000 }, max_path: 300, budget: Duration::from_secs(if quick { 6 } else { 40 }), workers: crate::util::workers(), by_deviations: false }
+        };
         let mk = || build(&setup, sc);
         let none = |_: &NetWorld, _: &[T]| -> Vec<(String, String)> { vec![] };
         let conv = |w: &NetWorld, _p: &[T]| converged(w, sc);
